@@ -105,10 +105,36 @@ def rewriteWithS (mce : List (UInt8 × Bytes)) (fx : Fixes) (pattern : Bytes) : 
   | .error e => .error e
   | .ok evs => chblocks fx (resolve evs)
 
+/-! ### negated block escapes outside a class (fixes/F185.diff) -/
+
+/-- `P{Is` -/
+def negNeedle : Bytes := [80, 123, 73, 115]
+/-- `[^\p` -/
+def negOpenText : Bytes := [91, 94, 92, 112]
+
+/-- `lys_compile_pattern_negblocks_xmlschema2perl`: `\P{IsX}` at bracket depth 0 becomes `[^\p{IsX}]` (pass 2 then substitutes
+    the range without its brackets).  State: `brack`, `escaped`, `pending` (a `}` closes the class).  As in `escapeLoopM` a
+    backslash that sets `escaped` is written one round later (the C code overwrites it: `res + idx - 1`). -/
+def negBlocksLoop : Nat → Bool → Bool → Bytes → Bytes
+  | _, escaped, _, [] => if escaped then [bBackslash] else []
+  | brack, true, pending, c :: rest =>
+    if brack = 0 ∧ negNeedle.isPrefixOf (c :: rest) = true then negOpenText ++ negBlocksLoop brack false true rest
+    else bBackslash :: c :: negBlocksLoop brack false pending rest
+  | brack, false, pending, c :: rest =>
+    if c = bBackslash then negBlocksLoop brack true pending rest
+    else if c = bOpen then c :: negBlocksLoop (brack + 1) false pending rest
+    else if c = bClose ∧ brack ≠ 0 then c :: negBlocksLoop (brack - 1) false pending rest
+    else if c = bRBrace ∧ pending = true then bRBrace :: bClose :: negBlocksLoop brack false false rest
+    else c :: negBlocksLoop brack false pending rest
+
+/-- the pattern pass 1 works on: the C string, through the negated-block pass when the source has it -/
+def prePass (on : Bool) (pattern : Bytes) : Bytes :=
+  if on then negBlocksLoop 0 false false (cstr pattern) else cstr pattern
+
 /-- **the rewrite of the source as it is now**: the escape table and the subtraction switch are extracted from it
     (`Generated.UBlocks`), `fx` are the five older repairs -/
 def rewriteSrc (fx : Fixes) (p : Bytes) : Except RwErr Bytes :=
-  if Generated.UBlocks.subtraction then rewriteWithS Generated.UBlocks.mceTable fx p
-  else rewriteWithM Generated.UBlocks.mceTable fx p
+  if Generated.UBlocks.subtraction then rewriteWithS Generated.UBlocks.mceTable fx (prePass Generated.UBlocks.negBlocks p)
+  else rewriteWithM Generated.UBlocks.mceTable fx (prePass Generated.UBlocks.negBlocks p)
 
 end LyModel.XsdRe
